@@ -90,6 +90,11 @@ struct Routine {
     {
         LogDbg("Routine(%u)", token.id());
 
+        //! makecontext() builds the first frame at the top of the stack and mainEntry() logs before the
+        //! entry runs: with stack_size 0 (or a few bytes) that was written below the malloc()ed block
+        if (ss < ROUTINE_STACK_MIN_SIZE)
+            ss = ROUTINE_STACK_MIN_SIZE;
+
         void *p_stack_mem = malloc(ss);
         TBOX_ASSERT(p_stack_mem != nullptr);
 
